@@ -19,6 +19,36 @@ CHECKS = {
               'code on object arrays.  One genuine defect found by this check (repeated measurement times) was repaired: fix commit b8619e1.'),
         technique='contract-based modular verification: real code executed symbolically against recording contract stubs; exhaustive order-type enumeration',
     ),
+    'C02': dict(
+        category='proof',
+        text=('Deductive check of chi.HierarchicalLogLikelihood / HierarchicalLogPosterior executed on the real population-model classes '
+              '(every composition of up to 2 (quick) / sampled 3 (thorough) sub-models of the kinds Gaussian, non-centred Gaussian, log-normal, '
+              'non-centred log-normal, truncated Gaussian, pooled, heterogeneous, covariate-dependent (non-)centred Gaussian, 1- or 2-dimensional, '
+              '1 or 2 covariates) with symbolic parameter vectors and covariates and contract-stub individual likelihoods: the value equals '
+              'sum_i L_i(psi_i) + the documented population density with psi read off the flat vector in the published order (pooled -> shared '
+              'value, heterogeneous -> own population entry, non-centred -> standard normal score and mu + sigma eta / exp(mu + sigma eta), '
+              'covariates -> theta_i = theta_0 + beta chi_i); every individual likelihood is proved to be evaluated at exactly that psi_i; the '
+              'published names and IDs describe each position; every constructible population model is usable; the posterior adds the prior on '
+              'the population block.'),
+        design_ref='DESIGN.md section 4 (C02)',
+        note=('Individual likelihoods and the prior by contract (stubs); structural bounds as stated (sub-model dims <= 2, 2 individuals, '
+              'values symbolic); real numpy on object arrays; sympy/z3; floats as reals.  Sub-model densities are those proved for symbolic N, d '
+              'in C05.  Two genuine defects found by this check were repaired (fix commits 39d6b6d, 185eef2).'),
+        technique='contract-based deductive verification: symbolic execution of the real classes against recording stubs + Sigma-normal-form/cancel + z3',
+    ),
+    'C03': dict(
+        category='proof',
+        text=('Composition of per-layer gradient obligations, each proved against the contracts of the layer below and with the right-hand '
+              'side obtained by mechanically differentiating the value specification: error models and population models (P-inf in the '
+              'number of observations / individuals / dimensions), LogLikelihood.evaluateS1 (gradient assembly over outputs, all time-grid '
+              'order types), LogPosterior.evaluateS1, HierarchicalLogLikelihood / HierarchicalLogPosterior.evaluateS1 (chain rule through '
+              'pooled, heterogeneous, non-centred and covariate dimensions for all compositions of C02).  Same-score and finiteness-path '
+              'obligations included.'),
+        design_ref='DESIGN.md section 4 (C03)',
+        note=('As C01, C02, C04, C05 (this check re-runs their gradient obligations); mechanistic-model sensitivities assumed (external solver); '
+              'fixed-parameter gradients are covered under C08.'),
+        technique='contract-based deductive verification: symbolic execution + mechanically differentiated specifications + Sigma-normal-form/cancel + z3',
+    ),
     'C04': dict(
         category='proof',
         text=('Deductive proof, for symbolic numbers of observations (n >= 1) and mechanistic parameters (p >= 0) and all real '
@@ -92,6 +122,8 @@ NOT_APPLICABLE = {}
 # property id -> contract module (a module may exist before the property is claimed in CHECKS)
 CHECK_MODULES = {
     'C01': 'contracts.c01',
+    'C02': 'contracts.c02',
+    'C03': 'contracts.c03',
     'C04': 'contracts.c04',
     'C05': 'contracts.c05',
     'C06': 'contracts.c06',
